@@ -429,11 +429,11 @@ inline void runVario(Rng& r, Ctx& c)
   VarioParam vp = mkVarioParam(r);
   c.setSig(fmt("inc:vario:nvar=%d:ndir=%d:sel=%d", ds.nvar, vp.getDirectionNumber(), ds.sel > 0));
   UVario V(Vario::create(vp));
-  // COVARIOGRAM (and flag_sample=true) run Vario::_calculateGeneralSolution2, which reads the FILE-STATIC direction
-  // index IDIRLOC left by whatever variogram was computed before in the process (Vario.cpp:37, never set in that
-  // function): results then depend on the process history and on the worker's previous cases. That input class is
-  // exercised where it can be judged, in forked children of c10_history (observed call "vario-covariogram").
-  static const bool AVOID_VARIO_BY_SAMPLE = true;
+  // COVARIOGRAM (and flag_sample=true) run Vario::_calculateGeneralSolution2. Until /repo commit c04485d4d that
+  // function read the FILE-STATIC direction index IDIRLOC left by whatever variogram was computed before in the
+  // process (Vario.cpp:37), so results depended on the process history and on the worker's previous cases (found by
+  // c10_history as C10:history:process-dies:variogram-computation->vario-by-sample). Switch kept for such a regression.
+  static const bool AVOID_VARIO_BY_SAMPLE = false;
   static const ECalcVario* CALC[] = {&ECalcVario::VARIOGRAM, &ECalcVario::COVARIANCE, &ECalcVario::MADOGRAM, &ECalcVario::COVARIOGRAM};
   const int ncalc = AVOID_VARIO_BY_SAMPLE ? 3 : 4;
   std::string hist, prevCalc;
